@@ -332,13 +332,22 @@ def fold_handler(interp, kind, gen, src_info):
     """max(record.timestamp for record in records) over a symbolic sequence"""
     itv, target, elt = src_info
     import ast
-    if kind != "max" or not isinstance(itv, SSeq) or not (isinstance(elt, ast.Attribute) and elt.attr == "timestamp"):
+    # max(<item>.timestamp ...) or max(<item>.timestamp.timestamp() ...): the latter is the float of the former's maximum,
+    # because datetime.timestamp() is a correctly rounded, hence non-decreasing, function of the instant
+    as_float = (isinstance(elt, ast.Call) and not elt.args and not elt.keywords and isinstance(elt.func, ast.Attribute)
+                and elt.func.attr == "timestamp")
+    inner = elt.func.value if as_float else elt
+    if kind != "max" or not isinstance(itv, SSeq) or not (isinstance(inner, ast.Attribute) and inner.attr == "timestamp"
+                                                          and isinstance(inner.value, ast.Name)):
         raise Undecided("fold over a symbolic sequence: only max(<item>.timestamp ...) has a contract")
     ctx = interp.ctx
     m = max_ts_term(ctx, itv)
     # instances of `>= every element` for the elements materialised so far
     for key, item in list(itv._cache.items()):
         ctx.assume(item.fields["timestamp"].t <= m)
+    if as_float:
+        from kvc.dtmodel import SInstantSeconds
+        return SInstantSeconds(m)
     return SOpaque(m, "datetime")
 
 
